@@ -18,7 +18,14 @@ P_c08 == [main |-> <<O("new", 2, 0), O("idle", 0, 0), O("rbulk", 1, 2), O("sync"
 \* C03: ring fast path racing a shrink
 P_c03 == [main |-> <<O("new", 3, 0), O("rbulk", 1, 3), O("sync", 0, 0), O("quiet", 0, 0), O("del", 0, 0)>>,
           p2 |-> <<O("up", 0, 0), O("resize", 2, 0)>>]
+\* C07 known finding: repeated single submissions into a (re-)parked pool
+P_idle_fq3 == [main |-> <<O("new", 2, 0), O("idle", 0, 0), O("fq", 1, 0), O("idle", 0, 0), O("fq", 2, 0),
+                          O("idle", 0, 0), O("fq", 3, 0), O("quiet", 0, 0), O("del", 0, 0)>>]
 \* small configurations for the quick tier (no time-outs: parked workers stay parked)
+P_q2_basic == [main |-> <<O("new", 2, 0), O("fq", 1, 0), O("del", 0, 0)>>]
+P_q2_c08 == [main |-> <<O("new", 1, 0), O("rbulk", 1, 1), O("resize", 2, 0), O("quiet", 0, 0), O("del", 0, 0)>>]
+P_q2_c03 == [main |-> <<O("new", 1, 0), O("up", 0, 0), O("rbulk", 1, 1), O("sync", 0, 0), O("del", 0, 0)>>,
+             p2 |-> <<O("up", 0, 0), O("resize", 2, 0)>>]
 P_q_basic == [main |-> <<O("new", 2, 0), O("fq", 1, 0), O("sched", 2, 0), O("del", 0, 0)>>]
 P_q_c08 == [main |-> <<O("new", 2, 0), O("rbulk", 1, 2), O("resize", 1, 0), O("quiet", 0, 0), O("del", 0, 0)>>]
 P_q_c03 == [main |-> <<O("new", 2, 0), O("up", 0, 0), O("rbulk", 1, 2), O("sync", 0, 0), O("del", 0, 0)>>,
